@@ -15,7 +15,7 @@ TOL_REL = 1e-10  # of |m_i|: rounding level of a direct solve (measured worst 2e
 TABLES_Q = ["T_ship_gas", "T_ship_oil", "S_zdip", "A_rise", "A_fall", "A_kink1e3", "A_jump"]
 TABLES_T = TABLES_Q + ["T_hay", "T_lib", "A_kink", "A_const", "S_zlin", "S_zdip_desc"]
 RATIOS = [0.0125, 0.5, 0.875, 0.99, 0.99875]
-GRIDS = [("onestep", 2, 0), ("huge", 6, 0), ("uniform", 25, 2.0), ("quadratic", 40, 4.0),
+GRIDS = [("onestep", 2, 0), ("huge", 6, 0), ("repeat", 9, 0), ("uniform", 25, 2.0), ("quadratic", 40, 4.0),
          ("geometric", 40, 0), ("irregular", 30, 3.0), ("integer", 12, 0), ("float32", 20, 2.0)]
 SCHEDS = ["scalar", "stepdown", "downup"]
 
@@ -66,6 +66,10 @@ def cases(tier, seed):
         for g, n, T in (("quadratic", 1500, 3.0), ("uniform", 3000, 6.0)):
             out.append({"cls": cls_, "table": tab, "p_f": 0.99875 * 8000.0 if cls_ == "single" else 1000.0, "p_i": 8000.0,
                         "nx": 10, "grid": g, "n": n, "T": T, "sched": "scalar", "seed": seed})
+    # an object that has already run a scheduled simulation is run again with its scalar setting
+    for tab, ratio, (g, n, T) in itertools.product(["T_ship_gas", "A_kink1e3"], [0.5, 0.99875], [("quadratic", 40, 4.0), ("huge", 6, 0)]):
+        out.append({"cls": "single", "table": tab, "p_f": ratio * 8000.0, "p_i": 8000.0, "nx": 10, "grid": g, "n": n, "T": T,
+                    "sched": "scalar", "seed": seed, "prior": True})
     # no drawdown at all: p_frac = p_initial is inside the quantifier (p_frac <= p_initial)
     for tab in ("T_ship_gas", "A_kink1e3"):
         out.append({"cls": "single", "table": tab, "p_f": 8000.0, "p_i": 8000.0, "nx": 10, "grid": "quadratic", "n": 40,
@@ -81,6 +85,8 @@ def evaluate(case):
     p_min = tables.table_range(case["table"])[0] if case["table"] else 0.0
     sched = sim.schedule(case["sched"], n, case["p_f"], case["p_i"], p_min)
     res = sim.make_reservoir(cls, nx, case["p_f"], case["p_i"], case["table"])
+    if case.get("prior"):  # the same object has run a scheduled simulation of the same length before: no trace may remain
+        sim.simulate(res, t, sim.schedule("stepdown", n, case["p_f"], case["p_i"], p_min))
     sim.simulate(res, t, sched)
     u = np.asarray(res.pseudopressure, dtype=float)
     m_f, m_i = sim.frac_values(res, cls, case["p_f"], sched, n)
